@@ -105,16 +105,21 @@ def cmd_addpatch(a):
         rc, out = run(["go", "build", "./..."], cwd=d)
         if rc != 0:
             sys.exit("does not build:\n" + out)
-        rc, out = run(["go", "test", "-vet=off", "-count=1", "./..."], cwd=d)
-        if rc != 0:
-            sys.exit("fails the existing tests:\n" + out[-2000:])
+        tests_pass = True
+        if getattr(a, "notests", False):
+            rc, out = run(["go", "test", "-vet=off", "-count=1", "./..."], cwd=d)
+            tests_pass = rc == 0
+        else:
+            rc, out = run(["go", "test", "-vet=off", "-count=1", "./..."], cwd=d)
+            if rc != 0:
+                sys.exit("fails the existing tests:\n" + out[-2000:])
         name = f"{a.prop}__{a.name}.patch"
         shutil.copy(a.patch, os.path.join(MUT, name))
         rc, out = check(d, a.prop, a.expect)
         print(out.strip().splitlines()[-1][:1500] if out.strip() else "(no output)")
         idx = load_index()
         idx["mutants"] = [m for m in idx["mutants"] if m["patch"] != name]
-        idx["mutants"].append({"patch": name, "property": a.prop, "expect": a.expect, "what": a.what, "tests_pass": True, "killed_when_added": rc == 0})
+        idx["mutants"].append({"patch": name, "property": a.prop, "expect": a.expect, "what": a.what, "tests_pass": tests_pass, "killed_when_added": rc == 0})
         idx["mutants"].sort(key=lambda m: m["patch"])
         json.dump(idx, open(INDEX, "w"), indent=1)
         return 0 if rc == 0 else 1
@@ -184,6 +189,7 @@ p.add_argument("--name", required=True)
 p.add_argument("--patch", required=True)
 p.add_argument("--expect", default="none")
 p.add_argument("--what", default="")
+p.add_argument("--notests", action="store_true")
 p = sub.add_parser("run")
 p.add_argument("--prop", required=True)
 p.add_argument("--out")
